@@ -8,6 +8,7 @@ import QclibModel.Proofs.EntangleMw
 import QclibModel.Proofs.EntangleGeo
 import QclibModel.Proofs.EntangleLU
 import QclibModel.Proofs.EntangleProd
+import QclibModel.Proofs.EntangleRelabelFin
 /-
   C20 — entanglement measures agree with their definitions and vanish on product states.
   Property theorems only; proofs live in Proofs/Entangle*.lean.
@@ -179,6 +180,63 @@ example (vec vec' : Array ℂ) (hv : ∀ a b : Bool,
     | simpa [insBit] using hv true false
     | simpa [insBit] using hv false true
     | simpa [insBit] using hv true true
+
+/-- **C20 (invariance under qubit relabelling, full statement; supersedes
+`C20_mw_relabel_partial`).**  For every `n ≥ 1`, every permutation `σ` of the qubits `{0..n−1}`
+(a permutation of `ℕ` mapping `[0,n)` onto itself) and every array `vec` of `2^n` amplitudes: the
+bit permutation `permIdx σ n` of basis-state labels moves bit `k` of a label to bit `σ k`
+(`k < n`) and maps into `[0,2^n)`; and for ANY array `vec'` of `2^n` amplitudes that reads `vec`
+through it (`vec'[b] = vec[permIdx σ n b]`, i.e. qubit `k` of `vec'` is qubit `σ k` of `vec`) — in
+particular for the explicitly relabelled array `Array.ofFn (b ↦ vec[permIdx σ n b])` — the model
+of `meyer_wallach_entanglement` returns the same value as for `vec`.  The slice bijections `π k`
+required by the partial theorem are constructed from `σ` (`Ent.piEquiv`). -/
+theorem C20_mw_relabel (n : Nat) (hn : 0 < n) (σ : Equiv.Perm Nat) (hσ : ∀ k, σ k < n ↔ k < n)
+    (vec : Array ℂ) (hsz : vec.size = 2 ^ n) :
+    (∀ b k, k < n → (permIdx σ n b).testBit (σ k) = b.testBit k)
+    ∧ (∀ b, permIdx σ n b < 2 ^ n)
+    ∧ (∀ vec' : Array ℂ, vec'.size = 2 ^ n →
+        (∀ b, b < 2 ^ n → vec'.getD b 0 = vec.getD (permIdx σ n b) 0) → mwCode vec' = mwCode vec)
+    ∧ mwCode (Array.ofFn (fun b : Fin (2 ^ n) => vec.getD (permIdx σ n b) 0)) = mwCode vec := by
+  have main : ∀ vec' : Array ℂ, vec'.size = 2 ^ n →
+      (∀ b, b < 2 ^ n → vec'.getD b 0 = vec.getD (permIdx σ n b) 0) → mwCode vec' = mwCode vec := by
+    intro vec' hsz' h
+    rw [mwCode_eq hn vec hsz, mwCode_eq hn vec' hsz']
+    exact congrArg some (mwValue_permIdx n σ hσ (ampOf vec) (ampOf vec') h)
+  refine ⟨fun b k hk => testBit_permIdx_apply hσ b k hk, fun b => permIdx_lt σ n b, main, ?_⟩
+  apply main _ (by simp)
+  intro b hb
+  simp [Array.getD, hb]
+
+/-- **C20 (relabelling, permutations of `Fin n`).**  The same for a permutation `σ` of `Fin n`,
+extended to `ℕ` by the identity: the explicitly relabelled array has the same Meyer–Wallach
+value. -/
+theorem C20_mw_relabel_fin (n : Nat) (hn : 0 < n) (σ : Equiv.Perm (Fin n)) (vec : Array ℂ)
+    (hsz : vec.size = 2 ^ n) :
+    mwCode (Array.ofFn (fun b : Fin (2 ^ n) =>
+      vec.getD (permIdx (σ.extendDomain Fin.equivSubtype) n b) 0)) = mwCode vec := by
+  refine (C20_mw_relabel n hn (σ.extendDomain Fin.equivSubtype) ?_ vec hsz).2.2.2
+  intro k
+  by_cases hk : k < n
+  · rw [Equiv.Perm.extendDomain_apply_subtype σ Fin.equivSubtype (b := k) hk]
+    simp [hk]
+  · rw [Equiv.Perm.extendDomain_apply_not_subtype σ Fin.equivSubtype (b := k) hk]
+
+/-- Non-vacuity: the swap of qubits 0 and 1 maps `[0,2)` onto itself; under it the label `1`
+(`q0 = 1`) goes to `2` (`q1 = 1`), and on the non-symmetric array `(1,2,3,4)` the relabelled array
+is `(1,3,2,4)`. -/
+example : (∀ k, Equiv.swap 0 1 k < 2 ↔ k < 2) ∧ permIdx (Equiv.swap 0 1) 2 1 = 2
+    ∧ permIdx (Equiv.swap 0 1) 2 2 = 1 ∧ permIdx (Equiv.swap 0 1) 2 3 = 3 := by
+  refine ⟨fun k => ?_, ?_, ?_, ?_⟩
+  · by_cases h0 : k = 0
+    · subst h0; simp
+    · by_cases h1 : k = 1
+      · subst h1; simp
+      · rw [Equiv.swap_apply_of_ne_of_ne h0 h1]
+  all_goals
+    apply Nat.eq_of_testBit_eq
+    intro i
+    rw [testBit_permIdx]
+    rcases i with _ | _ | i <;> simp [Nat.testBit_succ]
 
 /-- **C20 (geometric measure, post-processing).**  Let `results` be what the four `tucker` calls
 returned and assume the kernel's specification: every factor is a unit vector and
